@@ -30,6 +30,7 @@ THEOREMS = [
     "dml_atomic", "dml_atomic_at_root_unsound", "dml_all_or_nothing",
     "dml_atomic_on_silent_end", "dml_silent_end_regression",
     "merge_join_no_partial_ok", "merge_join_err_any_position",
+    "finish_error_propagates", "copy_to_flush_error_propagates",
     "failed_dml_leaves_table", "dml_invisible_before_commit", "commit_publishes_exactly",
     "delivery_complete", "delivery_incomplete_witness",
 ]
@@ -185,7 +186,7 @@ def run(ck):
         return ck.finish(level="proof")
 
     # ---- correspondence: corpus first, then generated
-    n_cases = 30 if quick else 300
+    n_cases = 20 if quick else 300
     gen = os.path.join(ck.work, "cases.txt")
     vlib.sh([vlib.harness_bin("c15"), "gen", str(n_cases), gen])
     recs = []
@@ -235,7 +236,7 @@ def run(ck):
                 # a real evaluation error (no injection) that the statement must report
                 ivo["disagree"] += 1
                 ck.report("fault:real-error-lost/%s" % r["stmt"].split()[0].lower(),
-                          "`%s` (%s engine) fails by itself (a real evaluation error in one of its chunks) but Database::run returns %s%s" % (r["stmt"], r["engine"], r["class"], "" if r.get("tables_eq_pre", True) else " and the tables changed"),
+                          "`%s` (%s engine) must fail by itself (a real failing input: evaluation error, unwritable / unreadable file, I/O error of the helper thread) but Database::run returns %s%s" % (r["stmt"], r["engine"], r["class"], "" if r.get("tables_eq_pre", True) else " and the tables changed"),
                           replay={"engine": r["engine"], "setup": r["setup"], "stmt": r["stmt"]})
             elif r.get("expect") == "err" and not r.get("tables_eq_pre", True):
                 ivo["disagree"] += 1
@@ -350,6 +351,9 @@ def run(ck):
                         gaps.append("%s child %d chunk %s %s: never hit" % (lab, ci, kc, kind))
     ck.coverage["fault_pairs_hit"] = sorted("%s/child%d/chunk-%s/%s" % p for p in hit_pairs)
     ck.coverage["fault_pair_gaps"] = gaps
+    ck.coverage["dev_full_usable"] = os.path.exists("/dev/full") and os.access("/dev/full", os.W_OK)
+    if not ck.coverage["dev_full_usable"]:
+        ck.notes.append("/dev/full is not openable for writing here: the COPY TO real-I/O-fault cases fail at File::create instead of at write/flush")
     if gaps:
         ck.report("coverage:fault-matrix-gap", "operator kind x child x chunk index pairs that are reachable but were never hit by a fired fault: %s" % "; ".join(gaps[:6]),
                   replay={"gaps": gaps}, found_input=False)
